@@ -44,7 +44,8 @@ const TEXTS: [&str; 25] = [
 ];
 
 const FILES: [&str; 10] = ["audio.mp3", "dir/a b.mp3", "a:b.mp3", "\u{FC}.ogg", "x", "", "a.b.c.wav", "\"Heroes\" (TV Size).mp3", "audio/12\"", "\"q\""];
-const BG_FILES: [&str; 6] = ["bg.jpg", "dir/x y.png", "\u{FC}.png", "", "a:b.jpg", "v.mp4"];
+// the last two have quotation marks inside the name (only the enclosing pair is removed on decode)
+const BG_FILES: [&str; 8] = ["bg.jpg", "dir/x y.png", "\u{FC}.png", "", "a:b.jpg", "v.mp4", "my \"best\" bg.png", "12\" vinyl.jpg"];
 
 #[derive(Clone, Debug, PartialEq)]
 pub enum Edit {
